@@ -666,6 +666,14 @@ impl MdkMemoryStorage {
     /// * `snapshot` - The group-scoped snapshot to restore from.
     pub fn restore_group_scoped_snapshot(&self, snapshot: GroupScopedSnapshot) {
         let mut inner = self.inner.write();
+        Self::restore_group_scoped_snapshot_locked(&mut inner, snapshot);
+    }
+
+    /// Restores a group-scoped snapshot into storage state the caller has locked for writing.
+    fn restore_group_scoped_snapshot_locked(
+        inner: &mut MdkMemoryStorageInner,
+        snapshot: GroupScopedSnapshot,
+    ) {
         let group_id = &snapshot.group_id;
 
         // MLS storage uses MlsCodec serialization for group_id keys.
@@ -788,10 +796,11 @@ impl MdkStorageProvider for MdkMemoryStorage {
     fn create_group_snapshot(&self, group_id: &GroupId, name: &str) -> Result<(), MdkStorageError> {
         // Create a group-scoped snapshot that only captures data for this group.
         // This ensures that rolling back this snapshot won't affect other groups.
+        // The snapshot map is locked before the state is captured (the order rollback uses),
+        // so that capturing and storing are one step for a concurrent rollback to this name.
+        let mut snapshots = self.group_snapshots.write();
         let snapshot = self.create_group_scoped_snapshot(group_id);
-        self.group_snapshots
-            .write()
-            .insert((group_id.clone(), name.to_string()), snapshot);
+        snapshots.insert((group_id.clone(), name.to_string()), snapshot);
         Ok(())
     }
 
@@ -812,22 +821,23 @@ impl MdkStorageProvider for MdkMemoryStorage {
         // backend has a unique index). If the id recorded in the snapshot has been taken by
         // another group since, restoring it would hand that group's routing entry to this
         // one: refuse, as the SQLite backend does, and keep the snapshot.
-        if let Some(group) = &snapshot.group {
-            let inner = self.inner.read();
-            if let Some(owner) = inner.groups_by_nostr_id_cache.peek(&group.nostr_group_id)
-                && owner.mls_group_id != *group_id
-            {
-                return Err(MdkStorageError::Database(
-                    "nostr_group_id of the snapshot belongs to a different group".to_string(),
-                ));
-            }
+        // The storage state stays locked for writing from this check to the end of the restore:
+        // another group cannot take the id in between.
+        let mut inner = self.inner.write();
+        if let Some(group) = &snapshot.group
+            && let Some(owner) = inner.groups_by_nostr_id_cache.peek(&group.nostr_group_id)
+            && owner.mls_group_id != *group_id
+        {
+            return Err(MdkStorageError::Database(
+                "nostr_group_id of the snapshot belongs to a different group".to_string(),
+            ));
         }
 
         // Remove and restore the snapshot (consume it)
         let snapshot = snapshots
             .remove(&key)
             .ok_or_else(|| MdkStorageError::NotFound("Snapshot not found".to_string()))?;
-        self.restore_group_scoped_snapshot(snapshot);
+        Self::restore_group_scoped_snapshot_locked(&mut inner, snapshot);
         Ok(())
     }
 
